@@ -26,7 +26,9 @@ import (
 	"io/fs"
 	"os"
 	"path/filepath"
+	"runtime"
 	"sort"
+	"strconv"
 	"strings"
 	"sync"
 	"time"
@@ -352,6 +354,17 @@ func (m *monitor) eval(n int) {
 	m.evalMu.Lock()
 	m.evals += n
 	m.evalMu.Unlock()
+}
+
+// par is the size of in-process worker pools (states, kill cases, chains).
+// C05_PAR caps it for development runs on a shared machine; case lists and
+// verdicts do not depend on it.
+func par() int {
+	n := runtime.GOMAXPROCS(0)
+	if v, err := strconv.Atoi(os.Getenv("C05_PAR")); err == nil && v > 0 && v < n {
+		n = v
+	}
+	return n
 }
 
 func isNotExist(err error) bool { return errors.Is(err, fs.ErrNotExist) }
